@@ -126,6 +126,22 @@ def mk_expr(e, ns, ncs, design, built):
         for seg in e[2]:
             o = getattr(o, seg)
         return o
+    if k in ("osig", "ob", "opref"):
+        # orphans: objects owned by no module, or by another module
+        key = ("orphan", repr(e))
+        if key not in ncs:
+            if k == "osig":
+                o = h.Signal(width=e[1])
+            elif k == "ob":
+                o = build_bundle(design, e[1], built)()
+            else:
+                o = h.Instance(of=target_of(design, e[1], built))
+            if e[-1] == "other":
+                other = ncs.setdefault(("other_module",), h.Module(name="OtherOwner"))
+                other.add(o, name=f"orph{len(ncs)}")
+            ncs[key] = o
+        o = ncs[key]
+        return getattr(o, e[2]) if k == "opref" else o
     if k == "anon":
         return h.AnonymousBundle(**{n: mk_expr(s, ns, ncs, design, built) for n, s in e[1]})
     if k == "dict":
